@@ -518,6 +518,16 @@ func (cs *connState) handleRequest() bool {
 		return false
 	}
 
+	// A version request changes the message size that the next receive has
+	// to enforce, so it is handled before the right to receive is passed on.
+	// Otherwise the next receiver picks up the old limit before the handler
+	// has stored the new one.
+	var versionReply message
+	if _, ok := m.(*tversion); ok && err == nil && cs.StartTag(tag) {
+		versionReply = cs.handle(m)
+		cs.ClearTag(tag)
+	}
+
 	// Ensure that another goroutine is available to receive from cs.t.
 	if atomic.LoadInt32(&cs.recvIdle) == 0 {
 		cs.pendingWg.Add(1)
@@ -541,27 +551,29 @@ func (cs *connState) handleRequest() bool {
 		return true
 	}
 
-	// Try to start the tag.
-	if !cs.StartTag(tag) {
-		cs.server.log.Printf("no valid tag [%05d]", tag)
-		// Nothing we can do at this point; client is bogus.
-		return true
-	}
+	r := versionReply
+	if r == nil {
+		// Try to start the tag.
+		if !cs.StartTag(tag) {
+			cs.server.log.Printf("no valid tag [%05d]", tag)
+			// Nothing we can do at this point; client is bogus.
+			return true
+		}
 
-	// Handle the message.
-	var r message
-	if flush, ok := m.(*tflush); ok && flush.OldTag == tag {
-		// A flush naming its own tag has nothing to wait for; waiting for
-		// the tag to clear would block this handler on itself forever.
-		r = &rflush{}
-	} else {
-		r = cs.handle(m)
-	}
+		// Handle the message.
+		if flush, ok := m.(*tflush); ok && flush.OldTag == tag {
+			// A flush naming its own tag has nothing to wait for; waiting for
+			// the tag to clear would block this handler on itself forever.
+			r = &rflush{}
+		} else {
+			r = cs.handle(m)
+		}
 
-	// Clear the tag before sending. That's because as soon as this
-	// hits the wire, the client can legally send another message
-	// with the same tag.
-	cs.ClearTag(tag)
+		// Clear the tag before sending. That's because as soon as this
+		// hits the wire, the client can legally send another message
+		// with the same tag.
+		cs.ClearTag(tag)
+	}
 
 	// Send back the result.
 	cs.sendMu.Lock()
